@@ -59,6 +59,7 @@ FN_CLASS = {"sin": ["cos", "abs"], "cos": ["sin", "abs"], "abs": ["sin", "cos"],
 def mutations(spec):
     """All one-token mutations applicable to the spec: list of (kind, function applying it to a deep copy)."""
     out = []
+    extra = []
     dim = spec["dim"]
     roots = [(("terms", ti), term) for ti, term in enumerate(spec["terms"])]
     roots += [(("lets", li, "expr"), v["expr"]) for li, v in enumerate(spec.get("lets", []))]
@@ -76,6 +77,10 @@ def mutations(spec):
             elif op == "const":
                 out.append(("constant_in_let" if in_let else "constant", full, ("const", float(node[1]) + 1.0)))
                 out.append(("constant_in_let" if in_let else "constant", full, ("const", -float(node[1]) if node[1] != 0 else 2.0)))
+                # neighbours whose Python hash may coincide with the original's (hash(-1.0) == hash(-2.0)); appended at the
+                # end of the list so that the 'pick' indices of older replay files keep their meaning
+                extra.append(("constant_in_let" if in_let else "constant", full, ("const", float(node[1]) - 1.0)))
+                extra.append(("constant_in_let" if in_let else "constant", full, ("const", 2.0 * float(node[1]) if node[1] != 0 else -2.0)))
             elif op == "dx":
                 if dim > 1:
                     out.append(("derivative_index", full, ("dxk", (int(node[2]) + 1) % dim)))
@@ -98,7 +103,7 @@ def mutations(spec):
     for ii, inp in enumerate(spec["inputs"]):
         if inp["kind"] == "spline":
             out.append(("updatable_flag", None, ("updatable", ii)))
-    return out
+    return out + extra
 
 
 def apply_mutation(spec, mut):
